@@ -316,7 +316,13 @@ func (g *gen) genStatement(typ types.Type, this, that string) error {
 		}
 		return nil
 	case *types.Struct:
-		if _, isNamed := typ.(*types.Named); isNamed {
+		if named, isNamed := typ.(*types.Named); isNamed {
+			if in := compareMethodInputParam(named); in != nil && types.Identical(*in, typ) {
+				// a value-parameter Compare method may itself be implemented by this function.
+				ptr := types.NewPointer(typ)
+				p.P("return %s(&%s, &%s)", g.GetFuncName(ptr, ptr), this, that)
+				return nil
+			}
 			fieldStr, err := g.field("&"+this, "&"+that, types.NewPointer(typ))
 			if err != nil {
 				return err
@@ -464,6 +470,17 @@ func wrap(value string) string {
 	return value
 }
 
+// pointsToCompareMethod reports whether a chain of pointers ends in a named type with its own Compare method.
+func pointsToCompareMethod(p *types.Pointer) bool {
+	switch e := p.Elem().(type) {
+	case *types.Named:
+		return compareMethodInputParam(e) != nil
+	case *types.Pointer:
+		return pointsToCompareMethod(e)
+	}
+	return false
+}
+
 func (g *gen) field(thisField, thatField string, fieldType types.Type) (string, error) {
 	if named, isNamed := fieldType.(*types.Named); isNamed {
 		inputType := compareMethodInputParam(named)
@@ -490,6 +507,7 @@ func (g *gen) field(thisField, thatField string, fieldType types.Type) (string, 
 		return fmt.Sprintf("%s(%s, %s)", g.GetFuncName(fieldType, fieldType), thisField, thatField), nil
 	case *types.Pointer:
 		ref := typ.Elem()
+		deref := false
 		if named, ok := ref.(*types.Named); ok {
 			inputType := compareMethodInputParam(named)
 			if inputType != nil {
@@ -498,12 +516,19 @@ func (g *gen) field(thisField, thatField string, fieldType types.Type) (string, 
 					return fmt.Sprintf("%s.Compare(%s)", wrap(thisField), thatField), nil
 				} else if _, ok := ityp.(*types.Interface); ok {
 					return fmt.Sprintf("%s.Compare(%s)", wrap(thisField), thatField), nil
-				} else {
-					// fall through to deferencing of pointers
 				}
-			} else {
-				return fmt.Sprintf("%s(%s, %s)", g.GetFuncName(typ, typ), thisField, thatField), nil
+				deref = true
 			}
+		} else if ptr, ok := ref.(*types.Pointer); ok {
+			deref = pointsToCompareMethod(ptr)
+		}
+		if deref {
+			// nil pointers are ordered first, otherwise the method decides, as it does in the derived equal function.
+			cmpStr, err := g.field("*("+thisField+")", "*("+thatField+")", ref)
+			if err != nil {
+				return "", err
+			}
+			return fmt.Sprintf("func() int { if %[1]s == nil { if %[2]s == nil { return 0 }; return -1 }; if %[2]s == nil { return 1 }; return %[3]s }()", thisField, thatField, cmpStr), nil
 		}
 		return fmt.Sprintf("%s(%s, %s)", g.GetFuncName(typ, typ), thisField, thatField), nil
 	case *types.Array, *types.Map:
